@@ -105,6 +105,16 @@ static void dump_node(struct obuf *o, struct json_object *j, int with_ptr)
 /* ---------- tree builder from tokens ----------
  *   n t f i<dec> u<dec> d<hexbits> D<hexbits>:<hex text> s<hex> [ ... ] { k<hex> v ... }
  * returns 0 on success; *out may legitimately be NULL (JSON null) */
+/* names handed to JSON_C_OBJECT_ADD_CONSTANT_KEY: caller-owned storage.  vf_interned_scramble(1) overwrites every non-empty name in place (as a caller
+ * recycling its buffers would, once the objects built from them are gone), vf_interned_scramble(0) restores them. */
+static char *vf_interned[4096]; static int vf_ninterned;
+static void vf_interned_scramble(int on)
+{
+	static int scrambled; int i;
+	if (!!on == scrambled) return;
+	for (i = 0; i < vf_ninterned; i++) if (vf_interned[i][0]) vf_interned[i][0] ^= 0x15;
+	scrambled = !!on;
+}
 static int build_node(char **tok, int ntok, int *pos, struct json_object **out)
 {
 	char *t;
@@ -141,11 +151,11 @@ static int build_node(char **tok, int ntok, int *pos, struct json_object **out)
 			constant = tok[*pos][0] == 'K';   /* K<hex>: member added with JSON_C_OBJECT_ADD_CONSTANT_KEY (the key is interned for the life of the process) */
 			k = unhex(tok[(*pos)++] + 1, &n);
 			if (constant) {
-				static char *interned[4096]; static int ninterned; int ii;
-				for (ii = 0; ii < ninterned; ii++) if (!strcmp(interned[ii], (char *)k)) break;
-				if (ii == ninterned) { if (ninterned < 4096) interned[ninterned++] = strdup((char *)k); else constant = 0; }
+				int ii;
+				for (ii = 0; ii < vf_ninterned; ii++) if (!strcmp(vf_interned[ii], (char *)k)) break;
+				if (ii == vf_ninterned) { if (vf_ninterned < 4096) vf_interned[vf_ninterned++] = strdup((char *)k); else constant = 0; }
 				if (constant) { free(k); k = NULL;
-					if (build_node(tok, ntok, pos, &c) < 0 || json_object_object_add_ex(ob, interned[ii], c, JSON_C_OBJECT_ADD_CONSTANT_KEY) != 0) { json_object_put(c); json_object_put(ob); return -1; }
+					if (build_node(tok, ntok, pos, &c) < 0 || json_object_object_add_ex(ob, vf_interned[ii], c, JSON_C_OBJECT_ADD_CONSTANT_KEY) != 0) { json_object_put(c); json_object_put(ob); return -1; }
 					continue; }
 			}
 			if (build_node(tok, ntok, pos, &c) < 0 || json_object_object_add(ob, (char *)k, c) != 0) { free(k); json_object_put(c); json_object_put(ob); return -1; }
